@@ -3,6 +3,7 @@ CONSTANTS
   Threads = {t1, t2}
   Keys = {k1, k2}
   Locked = FALSE
+  OpSet = {"Set", "SetToTop", "Update", "Get", "Has", "Len", "Each", "Map"}
   OpsPerThread = 2
 INVARIANTS OrderIsDomain NoLostUpdate EachConsistent
 CHECK_DEADLOCK FALSE
